@@ -155,7 +155,17 @@ def inherited_rows(P, fn, kind, what):
         wp = w.split("#")[0]
         if kind in MESSAGE_KINDS and wp and len(wp) >= 6 and what.startswith(wp):
             if fn.crate in _row_crates(P, suf) or (suf.split("::")[0] in path):
-                out.append((i, cls, why, "same message in the same crate"))
+                # all reviewed rows of this (crate, kind, message): a copy or a move keeps their total; a site beyond the total is
+                # a new reliance on the same stated invariant, which nobody reviewed
+                group = [j for j, (s2, k2, w2, _c, _y) in enumerate(T) if k2 == k and w2.split("#")[0] == wp
+                         and (fn.crate in _row_crates(P, s2) or s2.split("::")[0] in path)]
+                frozen = _frozen_counts()
+                total = sum(frozen.get("%s|%s|%s" % (T[j][0], T[j][1], T[j][2]), 1) for j in group) if frozen else None
+                hits = sum(_ROW_HITS.get(j, 0) for j in group)
+                how = "same message in the same crate"
+                if total is not None and hits >= total and cls != "FINDING":
+                    how = "EXCESS"
+                out.append((i, cls, why, how))
             continue
         if "::" not in suf:
             continue
@@ -338,8 +348,13 @@ def r08a(P, R):
                 classes["FINDING"] = classes.get("FINDING", 0) + 1
                 R.violated("R08-a", why.split(":", 1)[1] if why.startswith("R08-a:") else why,
                            "panic reachable from input text: %s in %s (site moved)" % (what or kind, p), loc=loc)
-        elif nonfind:
+        elif nonfind and all(how == "EXCESS" for _i, _c, _w, how in nonfind):
             i, cls, why, how = nonfind[0]
+            _ROW_HITS[i] = _ROW_HITS.get(i, 0) + 1
+            R.undecided("R08-a", "unreviewed-copy:" + skey, "new `%s` (%s) in %s repeats the message of reviewed sites (%s: %s) but there are more such "
+                        "sites than were reviewed: whether the stated invariant covers this one is not decided" % (kind, what, p, cls, why), loc=loc)
+        elif nonfind:
+            i, cls, why, how = [x for x in nonfind if x[3] != "EXCESS"][0]
             _ROW_HITS[i] = _ROW_HITS.get(i, 0) + 1
             classes[cls] = classes.get(cls, 0) + 1
             if cls == "CHECKER":
